@@ -11,7 +11,8 @@ A *case* is a JSON-able dict:
   data     {name: value}                 context data (plain str / list / dict / list of dict)
 Nodes are lists [tag, ...]; SCHEMA gives the kind of every field:
   '-' opaque, 'E' expr, 'E?' optional expr, 'Es' list of expr, 'args' list of [kw|None, expr],
-  'kv' list of [key, expr], 'S' list of statements, 'X' xblock child spec.
+  'kv' list of [key, expr] (key: a str = metacharacter-free literal key, or an expr node = a
+  data-controlled / nonce'd literal key), 'S' list of statements, 'X' xblock child spec.
 """
 from __future__ import annotations
 
@@ -23,6 +24,7 @@ SCHEMA = {
     "bin": ["-", "E", "E"],
     "m": ["-", "E", "Es"],
     "list": ["Es"], "tuple": ["Es"], "dict": ["kv"],
+    "dictof": ["-", "E"],          # dict(**E) | dict(E) | dict(E|items) | dict(E.items())
     "cond": ["E", "E", "E"], "test": ["-", "E", "Es"],
     "idx": ["E", "-"], "slice": ["E", "-", "-"],
     "cap.setblock": ["S"], "cap.setexpr": ["E"], "cap.macro": ["S"],
@@ -66,8 +68,13 @@ def children(node):
         elif k == "Es":
             for j, e in enumerate(v):
                 yield (i, j), e, "E"
-        elif k == "args" or k == "kv":
+        elif k == "args":
             for j, (_, e) in enumerate(v):
+                yield (i, j, 1), e, "E"
+        elif k == "kv":
+            for j, (key, e) in enumerate(v):
+                if isinstance(key, list):
+                    yield (i, j, 0), key, "E"
                 yield (i, j, 1), e, "E"
         elif k == "S":
             yield (i,), v, "S"
@@ -117,7 +124,8 @@ def leaf_strings(node, data):
     if t == "L":
         return list(data.get(node[1], []))
     if t == "D":
-        return list(data.get(node[1], {}).values())
+        dd = data.get(node[1], {})
+        return list(dd.values()) + [k for k in dd if isinstance(k, str)]
     if t == "LD":
         return [v for row in data.get(node[1], []) for v in row.values()]
     return []
@@ -158,7 +166,38 @@ def jlit(s: str) -> str:
 
 
 ATOMS = {"d", "L", "D", "LD", "lit", "klit", "num", "bool", "none", "hole", "var", "list",
-         "tuple", "dict", "cap", "idx", "slice", "m"}
+         "tuple", "dict", "dictof", "cap", "idx", "slice", "m"}
+
+
+def xmlattr_key_strings(case):
+    """Key strings that reach an xmlattr filter as attribute NAMES by construction:
+    keys of dict displays / data dicts / dict(...) calls that are the subject of
+    an xmlattr filter (directly or through a set-expression capture).  -> [(form, str)]"""
+    data = case["data"]
+    out = []
+
+    def from_dict_expr(e, form):
+        if e[0] == "dict":
+            for key, _ in e[1]:
+                if isinstance(key, str):
+                    out.append(("fixed", key))
+                elif key[0] == "lit":
+                    out.append((form or "literal-key", key[1]))
+                elif key[0] == "d":
+                    out.append((form or "data-key", data.get(key[1], "")))
+        elif e[0] == "D":
+            for k in data.get(e[1], {}):
+                out.append((form or "data-dict", k))
+        elif e[0] == "dictof":
+            from_dict_expr(e[2], "dict-call:" + e[1])
+        elif e[0] == "cap" and e[1] == "setexpr":
+            from_dict_expr(e[2], form)
+
+    for u in case["units"]:
+        for _, n, so in walk(u, "S"):
+            if so != "S" and n[0] == "f" and n[1] == "xmlattr":
+                from_dict_expr(n[2], None)
+    return out
 
 
 class Renderer:
@@ -253,10 +292,27 @@ class Renderer:
         if t == "dict":
             ps, parts = "", []
             for k, a in e[1]:
+                if isinstance(k, str):
+                    ks = jlit(k)
+                else:
+                    pk, ks = self.sub(k, hole)
+                    ps += pk
                 pp, x = self.expr(a, hole)
                 ps += pp
-                parts.append(f"{jlit(k)}: {x}")
+                parts.append(f"{ks}: {x}")
             return ps, "{" + ", ".join(parts) + "}"
+        if t == "dictof":
+            p, s = self.sub(e[2], hole)
+            how = e[1]
+            if how == "splat":
+                return p, f"dict(**{s})"
+            if how == "copy":
+                return p, f"dict({s})"
+            if how == "items":
+                return p, f"dict({s}|items)"
+            if how == "items_method":
+                return p, f"dict({s}.items())"
+            raise AssertionError(e)
         if t == "cond":
             pt, c = self.expr(e[1], hole)
             pa, a = self.sub(e[2], hole)
